@@ -476,9 +476,9 @@ pub fn run(ctx: &mut Ctx) {
             ctx.report.violation("model", "C20:verdict-mismatch", format!("collision witness: real {:?} vs model {model}", real), json!({"kind":"damage","damaged":hex(&d),"body_only":false,"in_payload":false,"damage":"collision witness"}));
         }
     }
-    let indexes = ctx.budget(6, 60);
-    let exhaustive_limit = if ctx.thorough() { 1 << 18 } else { 256 * 8 };
-    let samples = if ctx.thorough() { 2000 } else { 150 };
+    let indexes = ctx.budget(6, 40);
+    let exhaustive_limit = if ctx.thorough() { 2048 * 8 } else { 256 * 8 };
+    let samples = if ctx.thorough() { 1500 } else { 150 };
     for _ in 0..indexes {
         check_index(ctx, exhaustive_limit, samples);
     }
